@@ -75,6 +75,8 @@ def make_data(ftype, ds):
         c.add_error(0.4, name="own")
         return c
     if ftype == "hist":
+        if ds == "d1":      # the NumPy-histogram input form (heights, edges)
+            return (np.histogram(H1, bins=5, range=(0.0, 5.0))[0].astype(float), np.linspace(0.0, 5.0, 6))
         c = HistContainer(n_bins=5, bin_range=(0.0, 5.0), fill_data=H0 if ds == "d0" else H1)
         if ds == "d2":
             c.add_error(0.4, name="own")
